@@ -30,6 +30,12 @@ type Finding struct {
 	Known  string // label of the known finding that covers it ("" = none)
 	PC     []*Term
 	Goal   *Term
+	Sched  *SchedInfo
+}
+
+type SchedInfo struct {
+	Points   []string      `json:"points"`
+	Switches []SchedSwitch `json:"switches"`
 }
 
 type Frame struct {
@@ -50,7 +56,9 @@ type Exec struct {
 
 	// exploration
 	worklist  [][]int
+	siteWork  [][]uint32
 	decisions []int
+	sites     []uint32 // per decision: a fingerprint of the choice point (divergence detector)
 	dpos      int
 	pc        []*Term
 
@@ -141,6 +149,7 @@ func (ex *Exec) stack() []string {
 
 func (ex *Exec) Explore(entry *ssa.Function) {
 	ex.worklist = [][]int{{}}
+	ex.siteWork = [][]uint32{{}}
 	for len(ex.worklist) > 0 {
 		if ex.maxPaths > 0 && ex.Paths >= ex.maxPaths {
 			ex.Inconclusive = append(ex.Inconclusive, fmt.Sprintf("path budget %d exhausted with %d pending", ex.maxPaths, len(ex.worklist)))
@@ -149,8 +158,35 @@ func (ex *Exec) Explore(entry *ssa.Function) {
 		n := len(ex.worklist) - 1
 		prefix := ex.worklist[n]
 		ex.worklist = ex.worklist[:n]
+		ex.sites = append([]uint32{}, ex.siteWork[n]...)
+		ex.siteWork = ex.siteWork[:n]
 		ex.runPath(entry, prefix)
 	}
+}
+
+func (ex *Exec) siteFP(n int) uint32 {
+	return uint32(n)<<24 ^ uint32(ex.curPos())&0xffffff
+}
+
+// checkSite verifies, while a decision prefix is replayed, that the choice point is the one the
+// decision was recorded at.
+func (ex *Exec) checkSite(n int) {
+	if ex.dpos < len(ex.sites) && ex.sites[ex.dpos] != ex.siteFP(n) {
+		panic(unsupported("replay of a decision prefix diverged (engine nondeterminism)"))
+	}
+}
+
+func (ex *Exec) pushAlt(alt int, n int) {
+	d := append(append([]int{}, ex.decisions[:ex.dpos]...), alt)
+	st := append(append([]uint32{}, ex.sites[:min(ex.dpos, len(ex.sites))]...), ex.siteFP(n))
+	ex.worklist = append(ex.worklist, d)
+	ex.siteWork = append(ex.siteWork, st)
+}
+
+func (ex *Exec) recordDecision(choice, n int) {
+	ex.decisions = append(ex.decisions[:ex.dpos], choice)
+	ex.sites = append(ex.sites[:min(ex.dpos, len(ex.sites))], ex.siteFP(n))
+	ex.dpos++
 }
 
 func (ex *Exec) resetPath(prefix []int) {
@@ -171,9 +207,8 @@ func (ex *Exec) resetPath(prefix []int) {
 	ex.condMemo = map[*Term]*Term{}
 	ex.boundMemo = map[*Term]*termBounds{}
 	ex.specDepth = 0
-	if ex.specFailed == nil {
-		ex.specFailed = map[ssa.Instruction]bool{}
-	}
+	// per path: a memo shared across paths would make the replay of a decision prefix diverge
+	ex.specFailed = map[ssa.Instruction]bool{}
 	condResolver = ex.resolveCond
 }
 
@@ -343,8 +378,12 @@ func (ex *Exec) choose(conds []*Term) int {
 	}
 	ex.Branches++
 	if ex.dpos < len(ex.decisions) {
+		ex.checkSite(len(conds))
 		i := ex.decisions[ex.dpos]
 		ex.dpos++
+		if i >= len(conds) {
+			panic(unsupported("replay of a decision prefix diverged (engine nondeterminism)"))
+		}
 		ex.assume(conds[i])
 		return i
 	}
@@ -370,11 +409,9 @@ func (ex *Exec) choose(conds []*Term) int {
 		panic(pathEnd{"infeasible"})
 	}
 	for _, i := range feas[1:] {
-		alt := append(append([]int{}, ex.decisions[:ex.dpos]...), i)
-		ex.worklist = append(ex.worklist, alt)
+		ex.pushAlt(i, len(conds))
 	}
-	ex.decisions = append(ex.decisions[:ex.dpos], feas[0])
-	ex.dpos++
+	ex.recordDecision(feas[0], len(conds))
 	ex.assume(conds[feas[0]])
 	return feas[0]
 }
@@ -389,16 +426,18 @@ func (ex *Exec) chooseN(n int) int {
 	}
 	ex.Branches++
 	if ex.dpos < len(ex.decisions) {
+		ex.checkSite(n)
 		i := ex.decisions[ex.dpos]
 		ex.dpos++
+		if i >= n {
+			panic(unsupported("replay of a decision prefix diverged (engine nondeterminism)"))
+		}
 		return i
 	}
 	for i := 1; i < n; i++ {
-		alt := append(append([]int{}, ex.decisions[:ex.dpos]...), i)
-		ex.worklist = append(ex.worklist, alt)
+		ex.pushAlt(i, n)
 	}
-	ex.decisions = append(ex.decisions[:ex.dpos], 0)
-	ex.dpos++
+	ex.recordDecision(0, n)
 	return 0
 }
 
@@ -503,6 +542,14 @@ func (ex *Exec) recordFinding(kind, label string, goal *Term, known string) {
 	f.Model = m
 	if m != nil {
 		f.Inputs = ex.modelInputs(m)
+	}
+	if ex.sched != nil && ex.sched.symbolic {
+		si := &SchedInfo{Switches: append([]SchedSwitch{}, ex.sched.switches...)}
+		for p := range ex.sched.points {
+			si.Points = append(si.Points, p)
+		}
+		sort.Strings(si.Points)
+		f.Sched = si
 	}
 	ex.Findings[key] = f
 }
